@@ -300,6 +300,19 @@ func VerifyEthereumSignature(pubKey cryptotypes.PubKey, signerData authsigning.S
 				if EthChainID != tx.ChainId().Uint64() {
 					return fmt.Errorf("invalid ethereum chain ID, expected %d, got %d", EthChainID, tx.ChainId().Uint64())
 				}
+
+				// the ethereum transaction must be signed by the key that controls the named sender
+				from, err := msg.GetEthSender(tx.ChainId())
+				if err != nil {
+					return err
+				}
+				sender, err := sdk.AccAddressFromBech32(msg.Sender)
+				if err != nil {
+					return err
+				}
+				if from != common.BytesToAddress(sender) {
+					return fmt.Errorf("mismatching ethereum transaction signer and sender: %s != %s", from.String(), common.BytesToAddress(sender).String())
+				}
 				return msg.ValidateBasic()
 			default:
 				msg := msg.GetCachedValue().(sdk.Msg)
